@@ -75,9 +75,9 @@ class Run:
         n_viol = 0
         all_c = [c for f in self.families.values() for c in f.candidates]
         for f in self.families.values():
-            if f.need_witness and f.obligations > 0 and f.witnesses == 0:
+            if f.need_witness and f.obligations > 0 and f.witnesses == 0 and not getattr(self, 'scenario_failures', 0):
                 broken.append(f'family {f.name}: no reachability witness (vacuous)')
-            if f.need_witness and f.obligations == 0 and not f.candidates:
+            if f.need_witness and f.obligations == 0 and not f.candidates and not getattr(self, 'scenario_failures', 0):
                 broken.append(f'family {f.name}: no obligation was generated')
         # a counterexample whose path went through an unmodelled (havocked) call is believed only when its
         # concretised witness reproduces natively; otherwise it is inconclusive and does not change the exit code
